@@ -198,6 +198,11 @@ def r3_key(ctx, docs):
                     isinstance(t, ast.Compare) and len(t.ops) == 1 and isinstance(t.ops[0], ast.Is) and isinstance(t.left, ast.Name) and t.left.id == pname and isinstance(t.comparators[0], ast.Constant) and t.comparators[0].value is None
                 )
                 okg = absent
+            elif isinstance(par, ast.If) and any(a is x for x in par.orelse):
+                t = par.test
+                okg = (isinstance(t, ast.Name) and t.id == pname) or (
+                    isinstance(t, ast.Compare) and len(t.ops) == 1 and isinstance(t.ops[0], ast.IsNot) and isinstance(t.left, ast.Name) and t.left.id == pname and isinstance(t.comparators[0], ast.Constant) and t.comparators[0].value is None
+                )
             ctx.check(
                 okg,
                 'C11.R3',
